@@ -7,6 +7,7 @@ def run(ctx, rep):
     numeric.r09b(ctx, rep)
     numeric.r09c(ctx, rep)
     numeric.r_fold_adjacent(ctx, rep, "R09d", ["marwood::vm::builtin::number::"], 1)
+    numeric.r09e(ctx, rep)
     rep.not_decided += ["transitivity / consistency beyond per-arm domain adequacy",
                         "a comparison made in an adequate domain with swapped operands",
                         "NaN handling"]
